@@ -147,6 +147,29 @@ pub fn c15_variants(tier: &str, words: &[u32]) -> Vec<Variant> {
             out.push(Variant { spec: s, lim: l });
         }
     }
+    // change_identity towards a DIFFERENT address: the obituary of the old
+    // identity must stay keyed by the old address (lean alphabet, own variant)
+    for mt in [2u8, 3] {
+        let me = id(A, 1).with(Renew::Next);
+        let cfg = Cfg { max_tx: mt, max_packet: 1400, fanout: 2, notify_down: true, ..Cfg::default() };
+        let mut s = CoreSpec::new(&format!("c15-move-address-mt{mt}"), me, cfg);
+        s.words = words.to_vec();
+        s.mons.c15 = true;
+        s.alpha = Alpha {
+            srcs: vec![(id(B, 0), 0, true)],
+            kinds: vec![Kind::Gossip, Kind::Ping],
+            payload_kinds: vec![Kind::Gossip],
+            payloads: vec![vec![], vec![mm(id(A, 1), 1, State::Down)], vec![mm(id(5, 1), 0, State::Alive)], vec![mm(id(C, 1), 1, State::Alive)]],
+            applies: vec![(vec![mm(id(A, 1), 0, State::Suspect)], true), (vec![mm(id(5, 1), 0, State::Down)], true)],
+            api: vec![Ev::Gossip, Ev::ChangeId(id(5, 0).with(Renew::Next)), Ev::ChangeId(id(A, 3).with(Renew::Next))],
+            ..Alpha::default()
+        };
+        s.seed_hists.push(seed(&s, |sb| {
+            sb.ev(Ev::Apply(vec![al(id(B, 0)), al(id(C, 1))], true));
+        }));
+        let l = if th { lim(6, 6, 6_000_000, 600.0) } else { lim(4, 4, 800_000, 10.0) };
+        out.push(Variant { spec: s, lim: l });
+    }
     out
 }
 
@@ -242,6 +265,13 @@ pub fn c16_variants(tier: &str, words: &[u32]) -> Vec<Variant> {
             payload_kinds: vec![Kind::Gossip],
             payloads: vec![vec![], vec![mm(id(C, 0), 0, State::Down)], vec![mm(id(D, 0), 0, State::Alive)]],
             items: vec![item(0, 3, 4), item(1, 1, 3), item(2, 1, 5)],
+            // several items in ONE datagram, a later one invalidating an
+            // earlier one / unrelated ones in between / the stale one last
+            item_sets: vec![
+                vec![item(2, 1, 3), item(2, 2, 4)],
+                vec![item(3, 1, 3), item(1, 4, 3), item(3, 2, 3)],
+                vec![item(2, 5, 3), item(2, 4, 3)],
+            ],
             api,
             ..Alpha::default()
         };
@@ -274,7 +304,10 @@ pub fn c16(tier: &str) -> Report {
 pub fn c07_variants(tier: &str, words: &[u32]) -> Vec<Variant> {
     let th = tier == "thorough";
     let mut out = Vec::new();
-    for (var, packet) in [(false, 1400usize), (false, 21), (true, 26), (false, 12)] {
+    // 9 (fixed) / 11 (variable ids): a two-identity header fits, a
+    // three-identity one (PingReq, IndirectPing, ...) does not: header
+    // encoding fails mid-way and the next datagram must still be clean
+    for (var, packet) in [(false, 1400usize), (false, 21), (true, 26), (false, 12), (false, 9), (true, 11)] {
         let me = id(A, 1).with(Renew::Next);
         let cfg = Cfg { max_packet: packet, fanout: 2, notify_down: true, gossip: Some((200, 2)), announce_down: Some((500, 1)), ..Cfg::default() };
         let mut s = CoreSpec::new(&format!("c07-{}-pkt{packet}", if var { "var" } else { "fix" }), me, cfg);
